@@ -64,7 +64,7 @@ func childMain(in, out string) {
 	for _, p := range job.Plan {
 		r := Rendered{Doc: p[0]}
 		for k := 0; k < p[1]; k++ {
-			t := renderTrace(job.Docs[p[0]], render.NewPango())
+			t := renderTrace(job.Docs[p[0]], render.NewFonts(job.Docs[p[0]].Engine))
 			d := t.Digest()
 			if k == 0 {
 				r.First = t
@@ -234,7 +234,7 @@ func renderBatch(docs []Doc) []Trace {
 		wg.Add(1)
 		go func(i int) {
 			defer wg.Done()
-			fonts := render.NewPango()
+			fonts := render.NewFonts(docs[i].Engine)
 			<-start
 			out[i] = renderTrace(docs[i], fonts)
 		}(i)
@@ -527,7 +527,7 @@ func main() {
 	seq := make([]Trace, nd)
 	for i := range docs {
 		if i%3 == 0 { // a third is enough here: every document is already rendered sequentially in sets 1-3
-			seq[i] = renderTrace(docs[i], render.NewPango())
+			seq[i] = renderTrace(docs[i], render.NewFonts(docs[i].Engine))
 		}
 	}
 
